@@ -1,12 +1,13 @@
 """C14 - Packet filters decide exactly the documented boolean function.
 
-Structural clauses decided (DESIGN.md §5 C14), for each of the three filter.rs copies (tcp, http, tls):
+Structural clauses decided, for each of the three filter.rs copies (tcp, http, tls):
  R1 FilterConfig::should_process == documented mode composition (exhaustive truth table over its atoms)
  R2 PortFilter::matches == documented rule (exhaustive truth table over membership/emptiness atoms)
  R3 every range closure is `lo <= p && p <= hi` (all 9 order cases)
  R4 IpFilter / SubnetFilter::matches == (check_source & src in family-list) | (check_destination & dst in family-list)
  R5 half-open range conversion: `end-1` only for non-empty ranges; an empty range must stay a constraint that matches nothing
  R6 argument routing: (src, dst) passed in that order at every call
+ R7 the builders store what the caller configured (as parsed), nothing rewrites a value on its way into the lists
 """
 from ..engine import decision as D
 from ..engine import q as Q
